@@ -166,8 +166,22 @@ def run_case(case):
         for e_ in range(2):
             parts = []
             for k in range(int(rng.integers(1, 4))):
-                p = Particle(str(rng.choice(["nu_e", "nu_mu", "nu_tau_bar"])), (rng.uniform(-800, 800), rng.uniform(-800, 800), -rng.uniform(50, 2000)),
-                             rng.normal(size=3), float(10 ** rng.uniform(6, 10)))
+                vtx_ = (rng.uniform(-800, 800), rng.uniform(-800, 800), -rng.uniform(50, 2000))
+                dir_ = rng.normal(size=3)
+                if case["offcone"] in (5, 40) and rng.random() < 0.6:
+                    # aim the shower so that the first ray to the first antenna is viewed close to the off-cone limit (inside or
+                    # outside it by up to 30 %), measured from the Cherenkov angle of the *configured* ice at the vertex
+                    try:
+                        sols_ = list(tracer(vtx_, positions[0], ice_model=ice).solutions)
+                    except Exception:       # noqa: BLE001
+                        sols_ = []
+                    if sols_:
+                        em_ = np.asarray(sols_[0].emitted_direction, float)
+                        perp_ = np.cross(em_, rng.normal(size=3))
+                        perp_ = perp_ / max(np.linalg.norm(perp_), 1e-300)
+                        ang_ = float(np.arccos(1 / ice.index(vtx_[2]))) + float(rng.choice([-1, 1])) * np.radians(case["offcone"]) * float(rng.uniform(0.7, 1.3))
+                        dir_ = em_ * np.cos(ang_) + perp_ * np.sin(ang_)
+                p = Particle(str(rng.choice(["nu_e", "nu_mu", "nu_tau_bar"])), vtx_, dir_, float(10 ** rng.uniform(6, 10)))
                 # weights include the configured minima themselves (0.4 / 1e-3 for the pair, 1e-4 for the product) and exactly 0
                 p.survival_weight = float(rng.choice([1.0, 0.5, 1e-3, 0.4, 1.0]))
                 p.interaction_weight = float(rng.choice([1.0, 1e-2, 1e-6, 1e-3, 1e-4, 0.0]))
